@@ -824,5 +824,5 @@ def random_dfs_programs(seed, n, tag='rd'):
         vs = ['x', 'y', 'z'][:rng.randrange(2, 4)]
         goals = [_rgoal_dfs(rng, vs, 2) for _ in range(rng.randrange(2, 5))]
         goals.insert(rng.randrange(len(goals) + 1), EQ(q, L(*[V(v) for v in vs])))
-        out.append(T('%s%d_s%d' % (tag, i, seed), [FRESH(vs, ('dfs', goals))], 'sequence', 200))
+        out.append(T('%s%d_s%d' % (tag, i, seed), [FRESH(vs, ('dfs', goals))], 'sequence', 200, max_steps=12000000))
     return out
